@@ -245,6 +245,15 @@ class OrderAnalysis:
     def _feeds_circular_fold(self, n):
         """dir[k] bound to a name that is only ever used as `<name> % 360` inside an absolute difference folded by
         minimum(d, 360 - d): the body of utils.angle written in place."""
+        # dir[k] (% 360) used directly as an operand of the difference d of min(|d|, 360 - |d|)
+        q = n
+        p_ = getattr(q, "_parent", None)
+        if isinstance(p_, ast.BinOp) and isinstance(p_.op, ast.Mod) and p_.left is q:
+            q, p_ = p_, getattr(p_, "_parent", None)
+        if isinstance(p_, ast.BinOp) and isinstance(p_.op, ast.Sub):
+            from .rules.c05 import _folded_circularly
+            if _folded_circularly(self.fi, p_):
+                return True
         st = n
         while st is not None and not isinstance(st, ast.stmt):
             st = getattr(st, "_parent", None)
